@@ -52,11 +52,15 @@ impl ToTokens for FromMetaImpl<'_> {
                 ..
             }) if fields.len() == 1 => {
                 let ty_ident = base.ident;
+                let post_transform = base.post_transform_call();
                 quote!(
+                    #from_none
+
                     fn from_meta(__item: &::darling::export::syn::Meta) -> ::darling::Result<Self> {
                         ::darling::FromMeta::from_meta(__item)
                             .map_err(|e| e.with_span(&__item))
                             .map(#ty_ident)
+                            #post_transform
                     }
                 )
             }
